@@ -2,7 +2,7 @@
    unit, list, prod, sumbool, sumor map to OCaml's; numbers and octets stay Coq's inductives.
    No Extract Constant. *)
 Require Import DV.Base.Bytes DV.Base.Utf8 DV.Model.Leaf DV.Spec.Wire DV.Model.Avp
-  DV.Model.Message DV.Model.Dict DV.Model.Build DV.Model.IoWrite DV.Model.Stream DV.Model.Server DV.Model.Client DV.Model.Tls DV.Model.Listener.
+  DV.Model.Message DV.Model.Dict DV.Model.Build DV.Model.IoWrite DV.Model.Stream DV.Model.Server DV.Model.Client DV.Model.ClientMulti DV.Model.Tls DV.Model.Listener.
 Require Extraction.
 Require Import ExtrOcamlBasic.
 Extraction Language OCaml.
@@ -20,4 +20,5 @@ Extraction "model.ml"
   read_exact codec_decode codec_decode_legacy decode_n bytes_of all_bytes fault_free err_cut write_all codec_encode accepting
   serve serve_loop answer_octets whole_frames
   DV.Model.Client.step DV.Model.Client.init DV.Model.Client.run DV.Model.Client.outcomes DV.Model.Client.step_legacy all_okb
+  mstep minit mrun cproj mstep_legacy shinit shrun
   domain_of domain_legacy model_outcome spec_outcome all_cells lstep lstep_legacy lrun linit crun proj.
